@@ -25,6 +25,14 @@ def lu(rng, lo, hi):
     return sig(math.exp(rng.uniform(math.log(lo), math.log(hi))))
 
 
+def well_conditioned(ios, vis, frac=2e-4):
+    """C10's class of tables: axis steps not smaller than 1e-4 of the largest coordinate (2x margin)."""
+    big = max([abs(x) for x in ios] + [abs(v) for v in vis])
+    xs, ys = sorted(abs(x) for x in ios), sorted(abs(v) for v in vis)
+    steps = [b - a for a, b in zip(xs, xs[1:])] + [b - a for a, b in zip(ys, ys[1:])]
+    return all(st >= frac * big for st in steps)
+
+
 DEFAULTS = dict(
     n_comp=(2, 12), n_src=(1, 1), mux=0.0, polarity="pos", regime="benign", tables=0.3, general2d=0.3,
     phases=0.0, rails=0.0, via_rail=0.5, groups=0.0, rt=0.4, dead=0.0, names="plain", loss_flag=0.3,
@@ -363,6 +371,8 @@ class _Gen:
                 vis = [sig(m * 0.5), sig(m * 1.5)]
         else:
             vis = [sig(m)]
+        if two_d and not well_conditioned(ios, vis):
+            two_d, vis = False, [sig(m)]  # 2-D tables are only generated inside C10's well-conditioned class
         general = two_d and r.random() < o["general2d"]
 
         def val(i, j):
@@ -461,6 +471,9 @@ def scale_currents(spec, f):
         t["io"] = [sig(x * f, 6) for x in t["io"]]
         if scale_values:
             t[z] = [[sig(v * f, 6) for v in row] for row in t[z]]
+        if len(t["vi"]) > 1 and not well_conditioned(t["io"], t["vi"]):
+            k_ = len(t["vi"]) // 2  # scaled out of the well-conditioned class: keep one row (1-D table)
+            t["vi"], t[z] = [t["vi"][k_]], [t[z][k_]]
         return t
 
     for c in out["comps"]:
